@@ -1,7 +1,6 @@
 package main
 
 import (
-	"container/heap"
 	"fmt"
 	"os"
 	"sync"
@@ -54,7 +53,7 @@ type Engine struct {
 	prog       *ssa.Program
 	solver     *Solver
 	intrinsics map[string]func(st *State, fr *frame, args []value, call *ssa.CallCommon) value
-	work       [][]bool
+	work       workList
 	globalsDef map[*ssa.Global]bool
 	initDone   map[*ssa.Package]bool
 	// stats
@@ -662,7 +661,31 @@ func (fr *frame) visit(in ssa.Instruction) (jumped bool) {
 		p := new(value)
 		*p = arr
 		fr.env[in] = p
-	case *ssa.Range, *ssa.Next, *ssa.Go, *ssa.Select, *ssa.Send, *ssa.MakeChan:
+	case *ssa.Range:
+		switch x := fr.get(in.X).(type) {
+		case *mapV:
+			it := &mapIter{}
+			if x != nil {
+				it.keys, it.vals = append([]value{}, x.keys...), append([]value{}, x.vals...)
+			}
+			fr.env[in] = it
+		default:
+			panic(pathEnd{kind: "unsupported", msg: fmt.Sprintf("range over %T in %s", x, fr.fn)})
+		}
+	case *ssa.Next:
+		it, ok := fr.get(in.Iter).(*mapIter)
+		if !ok || in.IsString {
+			panic(pathEnd{kind: "unsupported", msg: "next over a string iterator in " + fr.fn.String()})
+		}
+		// (iteration order of Go maps is unspecified; insertion order is one admissible order)
+		tt := in.Type().(*types.Tuple)
+		if it.pos < len(it.keys) {
+			fr.env[in] = tuple{True, it.keys[it.pos], it.vals[it.pos]}
+			it.pos++
+		} else {
+			fr.env[in] = tuple{False, zeroOrNil(tt.At(1).Type()), zeroOrNil(tt.At(2).Type())}
+		}
+	case *ssa.Go, *ssa.Select, *ssa.Send, *ssa.MakeChan:
 		panic(pathEnd{kind: "unsupported", msg: fmt.Sprintf("instr %T in %s", in, fr.fn)})
 	default:
 		panic(fmt.Sprintf("unhandled instr %T", in))
@@ -1198,17 +1221,45 @@ func (fr *frame) builtin(b *ssa.Builtin, args []value, cc *ssa.CallCommon) value
 
 func (st *State) funcOf(cc *ssa.CallCommon) *ssa.Function { return cc.StaticCallee() }
 
-// ---- work list: shortest decision prefix first ------------------------------------------------
+// ---- work list: half of the workers take the shortest decision prefix first (short inputs, loop exits: complete
+// coverage of small cases early), the other half the deepest (reaches long matching inputs quickly) ----------------
 
-type workHeap [][]bool
+type workList struct {
+	buckets map[int][][]bool
+	n       int
+}
 
-func (h workHeap) Len() int            { return len(h) }
-func (h workHeap) Less(i, j int) bool  { return len(h[i]) < len(h[j]) }
-func (h workHeap) Swap(i, j int)       { h[i], h[j] = h[j], h[i] }
-func (h *workHeap) Push(x any)         { *h = append(*h, x.([]bool)) }
-func (h *workHeap) Pop() any           { o := *h; n := len(o); x := o[n-1]; *h = o[:n-1]; return x }
-func (e *Engine) pushWork(p []bool)    { heap.Push((*workHeap)(&e.work), p) }
-func (e *Engine) popWork() []bool      { return heap.Pop((*workHeap)(&e.work)).([]bool) }
+func (w *workList) push(p []bool) {
+	if w.buckets == nil {
+		w.buckets = map[int][][]bool{}
+	}
+	w.buckets[len(p)] = append(w.buckets[len(p)], p)
+	w.n++
+}
+
+func (w *workList) pop(deep bool) []bool {
+	best, found := 0, false
+	for k, b := range w.buckets {
+		if len(b) == 0 {
+			continue
+		}
+		if !found || (deep && k > best) || (!deep && k < best) {
+			best, found = k, true
+		}
+	}
+	b := w.buckets[best]
+	x := b[len(b)-1]
+	if len(b) == 1 {
+		delete(w.buckets, best)
+	} else {
+		w.buckets[best] = b[:len(b)-1]
+	}
+	w.n--
+	return x
+}
+
+func (e *Engine) pushWork(p []bool)        { e.work.push(p) }
+func (e *Engine) popWork(deep bool) []bool { return e.work.pop(deep) }
 
 // isOrbPkg: packages whose initialisers are executed (orbiter's own hand-written code and the harness);
 // generated API packages, test utilities and the simapp are treated like foreign modules.
@@ -1235,4 +1286,16 @@ func init() {
 	if os.Getenv("GOSX_FORKS") != "" {
 		forkStats = map[string]int{}
 	}
+}
+
+type mapIter struct {
+	keys, vals []value
+	pos        int
+}
+
+func zeroOrNil(t types.Type) value {
+	if b, ok := t.(*types.Basic); ok && b.Kind() == types.Invalid {
+		return nil
+	}
+	return zero(t)
 }
